@@ -11,6 +11,11 @@ import (
 
 func (r *runner) runOpMore(p *flags.Parser, op *OpSpec, or *OpResult) {
 	switch op.Op {
+	case "hide":
+		// the program changes Command.Hidden between operations
+		cmdAt(p, op.Path).Hidden = op.Hidden
+		or.Err = "nil"
+		or.Ret = "nil"
 	case "observe":
 		// nothing happens: only the observations are taken
 		or.Err = "nil"
